@@ -251,3 +251,422 @@ def c34(prop, tier, replay):
 
 
 REGISTRY = {"C29": c29, "C34": c34}
+
+
+# ------------------------------------------------------------------------------------------------
+# C30: requests never crash the server
+# ------------------------------------------------------------------------------------------------
+PIECE = {"<cr>": "\r", "<lf>": "\n", "<e>": "é", "<u>": "😀", "<S>": "%start S\n", "<P>": "%%\nS: 'a';\n", "<B>": "S: { A } [ 'b' ];\n"}
+
+
+def utf16_len(s):
+    return len(s.encode("utf-16-le")) // 2
+
+
+def requests_for(uri, line, ch):
+    pos = {"line": line, "character": ch}
+    td = {"uri": uri}
+    return [
+        ("textDocument/hover", {"textDocument": td, "position": pos}),
+        ("textDocument/definition", {"textDocument": td, "position": pos}),
+        ("textDocument/prepareRename", {"textDocument": td, "position": pos}),
+        ("textDocument/rename", {"textDocument": td, "position": pos, "newName": "Zz"}),
+        ("textDocument/codeAction", {"textDocument": td, "range": {"start": pos, "end": pos}, "context": {"diagnostics": []}}),
+    ]
+
+
+def c30_worker(binary, texts, wid):
+    """runs all requests for its texts; returns (violations, nreq)"""
+    viol = []
+    nreq = 0
+    s = lsp.LsSession(binary)
+    ver = 0
+    uri = f"file:///verif/c30_{wid}.par"
+    opened = False
+    try:
+        for tid, text in texts:
+            def restart():
+                nonlocal s, opened
+                try:
+                    s.close()
+                except Exception:
+                    pass
+                s = lsp.LsSession(binary)
+                opened = False
+            ver += 1
+            if not opened:
+                s.notify("textDocument/didOpen", {"textDocument": {"uri": uri, "languageId": "parol", "version": ver, "text": text}})
+                opened = True
+            else:
+                s.notify("textDocument/didChange", {"textDocument": {"uri": uri, "version": ver}, "contentChanges": [{"text": text}]})
+            lines = text.split("\n")
+            maxc = max(utf16_len(l) for l in lines) + 2
+            reqs = [("textDocument/documentSymbol", {"textDocument": {"uri": uri}}),
+                    ("textDocument/formatting", {"textDocument": {"uri": uri}, "options": {"tabSize": 4, "insertSpaces": True}})]
+            # positions: every line incl. one past the end; columns 0..longest+2 (all for short texts, a spread for long ones)
+            cols = list(range(maxc + 1)) if maxc <= 12 else sorted(set([0, 1, 2, maxc // 2, maxc - 2, maxc - 1, maxc]))
+            lns = list(range(len(lines) + 1)) if len(lines) <= 8 else sorted(set([0, 1, len(lines) // 2, len(lines) - 1, len(lines)]))
+            for ln in lns:
+                for ch in cols:
+                    reqs += requests_for(uri, ln, ch)
+            for method, params in reqs:
+                nreq += 1
+                r = s.request(method, params, timeout=15)
+                if r is None:
+                    pt = s.panic_text()
+                    viol.append({"id": tid, "text": text, "method": method, "params": params,
+                                 "outcome": pt or ("server exited" if not s.alive() else "no response within 15 s")})
+                    restart()
+                    break
+    finally:
+        try:
+            s.close()
+        except Exception:
+            pass
+    return viol, nreq
+
+
+def c30(prop, tier, replay):
+    from p_misc import corpus_pars
+    import random
+    t0 = time.time()
+    rep = Reporter(prop, tier)
+    binary = pvlib.build_ls()
+    vec_path = os.path.join(OUT, f"{prop}_{tier}.vec.ndjson")
+    texts = []
+    g = {"generated": 0, "distinct": 0}
+    if replay:
+        case = json.load(open(replay))["case"]
+        texts = [(case["id"], case["text"])]
+    else:
+        pieces = {"a", "<e>", "<u>", "<cr>", "<lf>", ":", "<S>", "<P>", "<B>"}
+        g = tlc_gen("Gen_Text", {"Pieces": pieces, "MaxLen": 3 if tier == "quick" else 4}, ["Emit"], 1, vec_path, spec="Spec",
+                    run_prefix=f"{prop}_{tier}", no_shard_consts=True)
+        for i, v in enumerate(read_ndjson(vec_path)):
+            texts.append((f"t{i}", "".join(PIECE.get(p, p) for p in v["text"])))
+        nsmall = len(texts)
+        rnd = random.Random(pvlib.seed())
+        files = corpus_pars()
+        files = files[::8] if tier == "quick" else files
+        for f in files:
+            texts.append((f, open(f).read()))
+        spaces = [{"space": "Gen_Text.tla texts", "vectors": nsmall}, {"space": "repository .par files", "vectors": len(files)}]
+    nw = 8
+    chunks = [texts[i::nw] for i in range(nw)]
+    nreq = 0
+    with ThreadPoolExecutor(max_workers=nw) as ex:
+        for viol, n in ex.map(lambda a: c30_worker(binary, a[1], a[0]), enumerate(chunks)):
+            nreq += n
+            for v in viol:
+                rep.violation({"id": v["id"], "text": v["text"], "method": v["method"], "position": v["params"].get("position") or v["params"].get("range")},
+                              f"{v['method']} at {json.dumps(v['params'].get('position') or v['params'].get('range'))} on {v['text'][:80]!r}: {v['outcome'][:300]}")
+    rc = rep.finish()
+    cov = {"evaluations": nreq, "distinct_nontrivial": len(texts),
+           "rule": "texts: every sequence of up to 3 (4) pieces over {a, é (2 bytes), 😀 (4 bytes, 2 UTF-16 units), CR, LF, ':', and three PAR fragments} "
+                   "enumerated by Gen_Text.tla, plus repository grammars; for each text the real parol-ls (LSP over stdio) is asked documentSymbol, "
+                   "formatting and - at every line 0..lines and every UTF-16 column 0..longest line+2 - hover, definition, prepareRename, rename and "
+                   "codeAction; every request must be answered (result, null or error response). A missing answer / dead process is a violation "
+                   "(the panic text is taken from the server's stderr). non-trivial: all texts",
+           "samples": [{"id": t[0], "text": t[1][:60]} for t in texts[:3]], "tlc_states": g["distinct"],
+           "spaces": spaces if not replay else [], "known_findings_seen": rep.known}
+    write_evidence(prop, tier, "exploration", cov, time.time() - t0, len(rep.violations),
+                   ["pos_to_offset staying inside the text is observed only through crashes (it is not exposed over LSP)"])
+    return rc
+
+
+REGISTRY.update({"C30": c30})
+
+
+# ------------------------------------------------------------------------------------------------
+# C27 / C28: formatting and rename through the real server, decided by LsText.tla
+# ------------------------------------------------------------------------------------------------
+def pos_of(text, off):
+    """byte offset -> LSP position (UTF-16 columns)"""
+    b = text.encode()
+    before = b[:off].decode()
+    line = before.count("\n")
+    col = utf16_len(before[before.rfind("\n") + 1:])
+    return {"line": line, "character": col}
+
+
+def off_of(text, pos):
+    """LSP position -> character index into text (clamped to the line)"""
+    lines = text.split("\n")
+    ln = pos["line"]
+    if ln >= len(lines):
+        return len(text)
+    base = sum(len(x) + 1 for x in lines[:ln])
+    u = 0
+    for i, ch in enumerate(lines[ln]):
+        if u >= pos["character"]:
+            return base + i
+        u += 2 if ord(ch) > 0xFFFF else 1
+    return base + len(lines[ln])
+
+
+def apply_edits(text, edits):
+    spans = sorted(((off_of(text, e["range"]["start"]), off_of(text, e["range"]["end"]), e["newText"]) for e in edits), key=lambda x: (x[0], x[1]))
+    out = []
+    last = 0
+    for s, e, new in spans:
+        if s < last:
+            return None          # overlapping edits
+        out.append(text[last:s])
+        out.append(new)
+        last = e
+    out.append(text[last:])
+    return "".join(out)
+
+
+FMT_OPTS = [(e, s, m) for e in (True, False) for s in (True, False) for m in (100, 20)]
+
+
+class LsDoc:
+    def __init__(self, binary, wid):
+        self.binary = binary
+        self.uri = f"file:///verif/doc_{wid}.par"
+        self.s = None
+        self.ver = 0
+        self.start()
+
+    def start(self):
+        self.s = lsp.LsSession(self.binary)
+        self.opened = False
+
+    def set_text(self, text):
+        self.ver += 1
+        if not self.opened:
+            self.s.notify("textDocument/didOpen", {"textDocument": {"uri": self.uri, "languageId": "parol", "version": self.ver, "text": text}})
+            self.opened = True
+        else:
+            self.s.notify("textDocument/didChange", {"textDocument": {"uri": self.uri, "version": self.ver}, "contentChanges": [{"text": text}]})
+
+    def req(self, method, params, timeout=30):
+        r = self.s.request(method, params, timeout=timeout)
+        if r is None:
+            why = self.s.panic_text() or ("server exited" if not self.s.alive() else "no response")
+            try:
+                self.s.close()
+            except Exception:
+                pass
+            self.start()
+            return None, why
+        return r, None
+
+    def close(self):
+        try:
+            self.s.close()
+        except Exception:
+            pass
+
+
+def fmt_once(doc, text, opt):
+    """(formatted text | None, why)"""
+    e, s, m = opt
+    props = {"formatting.empty_line_after_prod": e, "formatting.prod_semicolon_on_nl": s, "formatting.max_line_length": m}
+    doc.s.notify("workspace/didChangeConfiguration", {"settings": props})
+    doc.set_text(text)
+    o = {"tabSize": 4, "insertSpaces": True}
+    o.update(props)
+    r, why = doc.req("textDocument/formatting", {"textDocument": {"uri": doc.uri}, "options": o})
+    if r is None:
+        return None, "crash(C30): " + why
+    if r.get("error") or r.get("result") is None:
+        return None, "no result: " + json.dumps(r.get("error"))[:200]
+    t = apply_edits(text, r["result"])
+    if t is None:
+        return None, "overlapping edits"
+    return t, None
+
+
+def scan_texts(texts, prefix):
+    """[(id, text)] -> {id: scan event} for the texts parol accepts"""
+    vp = os.path.join(OUT, f"{prefix}.scan.vec.ndjson")
+    with open(vp, "w") as f:
+        for tid, t in texts:
+            f.write(json.dumps({"op": "scan", "id": tid, "text": t}) + "\n")
+    outp = os.path.join(OUT, f"{prefix}.scan.out.ndjson")
+    pvlib.pv(["replay", "lsx", vp, outp])
+    return {e["id"]: e for e in read_ndjson(outp + ".trace")}
+
+
+COMMENTED = """// leading comment
+%start S // after start
+%title "t" /* block */
+%comment "c"
+// before user type
+%user_type MyT = my::T // trailing
+%nt_type A = my::NtA
+%line_comment "//"
+%block_comment "/\\*" "\\*/"
+%on B %enter M2 // on
+/* before scanner */
+%scanner M2 { // in scanner
+    %auto_ws_off /* x */
+    %on B %enter INITIAL
+} // after scanner
+%% // after %%
+/* p1 */ S /* p2 */ : /* p3 */ A /* p4 */ B // p5
+    C2 { /* in rep */ D // d
+    } [ E /* in opt */ ] ( 'x' /* g1 */ | /* g2 */ 'y' ) /* p6 */ ; // p7
+// between
+A: 'a'^ /* clip */ | "x"@mem : MyT // alt2
+ | /* empty alt */ ;
+B: <INITIAL, M2> /* st */ 'b';
+C2: <M2>'c';
+D: /d/ ?= 'e' // la
+ ;
+E: 'e' | 'a-very-long-terminal-number-one' 'a-very-long-terminal-number-two' 'a-very-long-terminal-number-three' 'four' // long
+ ;
+// trailing comment
+"""
+
+
+def ls_texts(prop, tier):
+    """grammar texts for C27/C28: repository files, feature templates, a comment-heavy text"""
+    from p_misc import corpus_pars, PAR_FLAGS
+    texts = [("commented", COMMENTED), ("commented-crlf", COMMENTED.replace("\n", "\r\n"))]
+    files = corpus_pars()
+    for fn in files:
+        t = open(fn).read()
+        if len(t) < (20000 if tier == "quick" else 200000):
+            texts.append((fn, t))
+    part = os.path.join(OUT, f"{prop}_{tier}.flags.ndjson")
+    g = tlc_gen("Gen_Flags", {"Flags": PAR_FLAGS, "MinOn": 0, "MaxOn": 2 if tier == "quick" else 3}, ["Emit"], 1, part, spec="Spec",
+                run_prefix=f"{prop}_{tier}_flags", no_shard_consts=True)
+    vp = os.path.join(OUT, f"{prop}_{tier}.tmpl.vec.ndjson")
+    with open(vp, "w") as f:
+        for j, l in enumerate(open(part)):
+            v = json.loads(l)
+            v.update({"id": f"flags-{j}", "mutations": 0})
+            f.write(json.dumps(v) + "\n")
+    outp = os.path.join(OUT, f"{prop}_{tier}.tmpl.out.ndjson")
+    pvlib.pv(["replay", "c34", vp, outp])
+    for e in read_ndjson(outp + ".trace"):
+        texts.append((e["id"], e["text"]))
+    return texts, g
+
+
+GAPINFO = {}
+
+
+def strip_comments(t):
+    import re
+    t = re.sub(r'/\*.*?\*/', '', t)
+    return re.sub(r'(?<!")//[^\n"]*\n', '\n', t)
+
+
+def gap_texts(prop, tier):
+    """one comment (block / line) at every token boundary of a comment-free base text: `comments anywhere`"""
+    base = strip_comments(COMMENTED)
+    sc = scan_texts([("base", base)], f"{prop}_{tier}_base")
+    if "base" not in sc:
+        raise ToolError("base text of the comment generator is not a valid grammar")
+    bb = base.encode()
+    out = []
+    gaps = sc["base"]["gaps"] + [{"s": len(bb), "tok": "<eof>", "ctx": "eof"}]
+    for kind, c in (("block", "/* c */ "), ("line", "// c\n")):
+        for i, g in enumerate(gaps):
+            tid = f"gap-{kind}-{i}"
+            GAPINFO[tid] = {"comment": kind, "before_token": g["tok"], "context": g["ctx"], "gap": i}
+            out.append((tid, (bb[:g["s"]] + c.encode() + bb[g["s"]:]).decode()))
+    # two comments: adjacent gaps (quick: every 3rd) and, thorough, random pairs
+    import random
+    rnd = random.Random(pvlib.seed())
+    pairs = [(i, i + 1) for i in range(0, len(gaps) - 1, 3 if tier == "quick" else 1)]
+    pairs += [(i, i) for i in range(0, len(gaps), 5 if tier == "quick" else 1)]
+    if tier != "quick":
+        pairs += [tuple(sorted(rnd.sample(range(len(gaps)), 2))) for _ in range(600)]
+    for n, (i, j) in enumerate(pairs):
+        k1, k2 = rnd.choice(["block", "line"]), rnd.choice(["block", "line"])
+        c1 = "/* c1 */ " if k1 == "block" else "// c1\n"
+        c2 = "/* c2 */ " if k2 == "block" else "// c2\n"
+        tid = f"gap2-{i}-{j}-{k1}-{k2}"
+        GAPINFO[tid] = {"comment": f"{k1},{k2}", "before_token": [gaps[i]["tok"], gaps[j]["tok"]], "context": [gaps[i]["ctx"], gaps[j]["ctx"]], "gap": [i, j]}
+        a, b2 = gaps[i]["s"], gaps[j]["s"]
+        out.append((tid, (bb[:a] + c1.encode() + bb[a:b2] + c2.encode() + bb[b2:]).decode()))
+    return out
+
+
+def c27(prop, tier, replay):
+    t0 = time.time()
+    rep = Reporter(prop, tier)
+    binary = pvlib.build_ls()
+    g = {"generated": 0, "distinct": 0}
+    if replay:
+        case = json.load(open(replay))["case"]
+        texts = [(case["id"], case["text"])]
+        opts = [tuple(case["opt"])] if case.get("opt") else FMT_OPTS
+    else:
+        texts, g = ls_texts(prop, tier)
+        opts = FMT_OPTS
+        texts += gap_texts(prop, tier)
+    scans = scan_texts(texts, f"{prop}_{tier}")
+    valid = [(tid, t) for tid, t in texts if tid in scans]
+    if not valid:
+        raise ToolError("no valid texts")
+    work = []
+    for i, (tid, t) in enumerate(valid):
+        # quick: every text under 2 option sets (rotating), the commented texts under all
+        os_ = opts if (tier != "quick" or tid.startswith("commented") or replay) else [opts[i % len(opts)], opts[(i * 3 + 5) % len(opts)]]
+        for o in os_:
+            work.append((tid, t, o))
+    nw = 8
+    chunks = [work[i::nw] for i in range(nw)]
+    tmap = dict(valid)
+
+    def worker(a):
+        wid, items = a
+        doc = LsDoc(binary, f"c27_{wid}")
+        out = []
+        try:
+            for tid, t, o in items:
+                b, why = fmt_once(doc, t, o)
+                if b is None:
+                    out.append({"id": tid, "opt": o, "fail": why})
+                    continue
+                b2, why2 = fmt_once(doc, b, o)
+                out.append({"id": tid, "opt": o, "b": b, "b2": b2 if b2 is not None else "<<" + str(why2) + ">>"})
+        finally:
+            doc.close()
+        return out
+    vec_path = os.path.join(OUT, f"{prop}_{tier}.vec.ndjson")
+    nofmt = 0
+    with ThreadPoolExecutor(max_workers=nw) as ex, open(vec_path, "w") as f:
+        for res in ex.map(worker, enumerate(chunks)):
+            for r in res:
+                if "fail" in r:
+                    nofmt += 1
+                    if r["fail"].startswith("crash"):
+                        rep.violation({"id": r["id"], "opt": list(r["opt"]), "text": tmap[r["id"]], "crash": True, "gap": GAPINFO.get(r["id"])}, f"formatting {r['id']} with {r['opt']}: {r['fail']}")
+                    continue
+                f.write(json.dumps({"op": "format", "id": r["id"], "a": tmap[r["id"]], "b": r["b"], "b2": r["b2"],
+                                    "info": {"opt": list(r["opt"])}}) + "\n")
+    outp = os.path.join(OUT, f"{prop}_{tier}.replay.ndjson")
+    pvlib.pv(["replay", "lsx", vec_path, outp])
+    summary = read_ndjson(outp)[-1]["summary"]
+    trace_path = outp + ".trace"
+    vecs = {(v["id"], tuple(v["info"]["opt"])): v for v in read_ndjson(vec_path)}
+
+    def describe(first, ev, run_ev):
+        v = vecs.get((ev.get("id"), tuple(ev["info"]["opt"])), {})
+        return {"id": ev.get("id"), "opt": ev["info"]["opt"], "text": v.get("a"), "why": ev.get("why"), "gap": GAPINFO.get(ev.get("id"))}, \
+            f"format {ev.get('id')} {GAPINFO.get(ev.get('id')) or ''} opts(empty_line_after_prod, semicolon_on_nl, max_line)={ev['info']['opt']}: {ev.get('why')}"
+    tvres = tv.validate(prop, "LsText", trace_path, rep, describe, nchunks=8, boundary="lsx", run_prefix=f"{prop}_{tier}_tv")
+    rc = rep.finish()
+    ncomm = sum(1 for tid, _ in valid if scans[tid]["comments"])
+    cov = {"states": max(tvres["states"], 1), "transitions": max(tvres["states"], 1), "traces_validated_against_impl": tvres["cases_accepted"],
+           "evaluations": len(vecs), "distinct_nontrivial": ncomm, "samples": [{"id": v["id"], "opt": v["info"]["opt"]} for v in list(vecs.values())[:3]],
+           "rule": "texts: repository .par files, TLC-enumerated PAR feature templates (Gen_Flags.tla), a text with comments at every place the grammar "
+                   "allows one (LF and CRLF); options: all 8 combinations of empty_line_after_prod x prod_semicolon_on_nl x max_line_length {100, 20} "
+                   "(quick: two per text, all for the commented texts). The real parol-ls formats the text over LSP (textDocument/formatting after "
+                   "workspace/didChangeConfiguration), the driver applies the edits and formats the result again; the harness reads both texts with "
+                   "parol's own front end (model2) and extracts the comments by running parol.par on them through the run-time parser; LsText.tla accepts "
+                   "the step iff model' = model, comments' = comments and the second formatting changed nothing. non-trivial = texts with comments",
+           "tags": summary["tags"], "no_format_result": nofmt, "tlc_states": g["distinct"],
+           "tv": {k: tvres[k] for k in ("events", "cases", "cases_accepted", "states")}, "known_findings_seen": rep.known}
+    write_evidence(prop, tier, "exploration", cov, time.time() - t0, len(rep.violations), [])
+    return rc
+
+
+REGISTRY.update({"C27": c27})
